@@ -170,6 +170,26 @@ func bigInputs() [][]byte {
 		[]byte(strings.Repeat("- ", 20000)+"x"),
 		[]byte("- chord: {degree: \""+strings.Repeat("9", 16000)+"\", name: \"\"}\n  values: [\"1\"]\n"),
 	)
+	// one instance with 2500 values whose denominators are distinct 63-bit numbers (63 KiB): their exact sum has
+	// a denominator of 150,000 bits
+	{
+		var chord, text strings.Builder
+		chord.WriteString("- chord: {degree: \"1\", name: \"\"}\n  values: [")
+		text.WriteString("C[")
+		d := uint64(1)<<62 + 12345
+		for k := 0; k < 2500; k++ {
+			if k > 0 {
+				chord.WriteString(", ")
+				text.WriteString(",")
+			}
+			fmt.Fprintf(&chord, "\"1/%d\"", d)
+			fmt.Fprintf(&text, "1/%d", d)
+			d += 2*uint64(k) + 7919
+		}
+		chord.WriteString("]\n")
+		text.WriteString("]")
+		out = append(out, []byte(chord.String()), []byte(text.String()))
+	}
 	return out
 }
 
@@ -564,6 +584,15 @@ func checkC09(c *core.Ctx) {
 		{[]string{"write", "parse"}, "- chord: {degree: ~, name: m7}\n  values: [1]\n"}, {[]string{"write", "conv", "-c", "cmt"}, "- chord: {}\n  values: [1]\n"}, {[]string{"write", "parse"}, "- chord: {degree: \"1\"}\n  values: [1]\n"},
 		{[]string{"write", "parse"}, "- chord: {degree: \"1\", name: m7, base: ~}\n  values: [1]\n"},
 		{[]string{"info", "attr", "describe", "-t", "Major3", "-r", "D♭"}, ""}, {[]string{"info", "attr", "describe", "-t", "Major3", "-r", "xF"}, ""}, {[]string{"info", "attr", "describe", "-t", "Major3", "-r", "C##"}, ""}, {[]string{"info", "attr", "describe", "-t", "Major3", "-r", ""}, ""},
+	}
+	// definitions without a degree
+	noDegAttr := c.Scratch.File("nodeg-attr.yml", []byte("- name: Znd\n"))
+	noDegChord := c.Scratch.File("nodeg-chord.yml", []byte("- name: Zc\n  meta: {display: zc}\n  attributes: [Perfect1, Znd]\n"))
+	for _, a := range [][]string{{"info", "attr", "describe", "-t", "Znd", "--attr", noDegAttr}, {"info", "attr", "list", "--attr", noDegAttr}, {"info", "chord", "describe", "-t", "C_zc", "--attr", noDegAttr, "--chord", noDegChord}, {"write", "--attr", noDegAttr, "--chord", noDegChord}} {
+		edges = append(edges, struct {
+			args  []string
+			stdin string
+		}{a, "- chord: {degree: \"1\", name: zc}\n  values: [1]\n"})
 	}
 	c.Stream("edges", len(edges), func(i int, _ *rand.Rand) {
 		e := edges[i]
